@@ -19,9 +19,11 @@ RULE = ('(wertheim-thiele) one-component hard spheres, PY with and without the h
         'with (i) error <= C(eta) dr, (ii) halving ratio <= 0.6 (faster is fine), (iii) Richardson value within C2(eta) dr^2. (dilute) every '
         'shipped potential with generated parameters, kT in [0.7,3], closure PY / HNC / MSA+flag, density family rho0, rho0/10, rho0/100 '
         '(rho0 in [1e-3,1e-2]) plus one really vanishing density in [1e-12,1e-7] on grids dr and dr/2: |g - g_ref| <= K rho pointwise with g_ref = exp(-u/kT) (PY,HNC) or 1-u/kT outside '
-        'the core (MSA), deviation linear in rho (ratio per decade in [5,20]), second_virial against -2 pi int (g_ref-1) r sin(kr)/k dr by '
+        'the core (MSA), deviation linear in rho (ratio per decade in [5,20], demanded where the deviation is below 5 % of the reference), second_virial against -2 pi int (g_ref-1) r sin(kr)/k dr by '
         'adaptive quadrature (same 3-point k->0 extrapolation applied to the exact transform; also unextrapolated at k_min) within K1 rho + K2 dr '
-        'with Richardson limit. Non-trivial = all family members converged and eta >= 0.05 '
+        'with Richardson limit. (dilute-mixture) two atomic species, diameters 1 and 1 / 1.5 / 2, compositions 0.01 .. 0.8, one generated potential and one '
+        'closure (PY / HNC, flag or not) per pair, kT in [0.7,3], total densities rho0, rho0/10 and one in [1e-12,1e-7]: every g_ab (read as (a,b) and (b,a)) '
+        'within K_ab rho_total of exp(-u_ab/kT), K_ab = max_c max|f_ac| int|f_cb| max(1, max g_ref). Non-trivial = all family members converged and eta >= 0.05 '
         '(WT) / potential not identically zero outside the core (dilute); distinct = spec hash.')
 ASSUMPTIONS = ['constants C(eta) = 0.5+12 eta/(1-eta)^1.5, C2(eta) = 0.03+4 eta^2/(1-eta)^3 are >= 3x the worst value observed over the generator range '
                '(observed: error/dr up to 4.3 and Richardson/dr^2 up to 1.1 at eta=0.43; ratios 0.455..0.514); c(r) is judged with the looser Richardson constant '
@@ -318,4 +320,101 @@ class Dilute(Sub):
         return out
 
 
-SUBS = [WertheimThiele(), Dilute()]
+# ----------------------------------------------------------------------------- dilute limit of atomic mixtures
+
+def pair_reference(desc, closure, flag, kT, r, sigma):
+    """(g_ref, judged) of one pair of an atomic mixture: exp(-u_ab/kT) (PY, HNC), 0 inside a flagged core"""
+    name, p = desc[0], desc[1]
+    q = S.pot_params(name, p, sigma)
+    q.setdefault('high_value', 1e6)
+    u, judged = O.potential(name, q, r, sigma)
+    u = u / kT
+    with np.errstate(all='ignore'):
+        g = np.exp(-u)
+        if flag:
+            g = np.where(r <= sigma, 0.0, g)
+            judged = judged & ((r <= sigma) | (r >= sigma + O.BAND))
+    return g, judged
+
+
+class DiluteMixture(Sub):
+    name = 'dilute-mixture'
+    doc = 'two atomic species (different diameters, a potential per pair, kT != 1) at vanishing density: every g_ab -> exp(-u_ab/kT), deviation <= K_ab rho'
+    budget = {'quick': 60, 'thorough': 8000}
+    shrink = {'quick': False, 'thorough': False}
+
+    def strategy(self, tier):
+        def body(kT):
+            def stronger(d, f):
+                p = {k: v for k, v in d[1].items()}
+                if 'epsilon' in p:
+                    p['epsilon'] = float('%.4g' % (p['epsilon'] * f))
+                return [d[0], p]
+            pot = st.tuples(S._potential(kT), st.sampled_from([1.0, 1.0, 2.5])).map(lambda t: stronger(*t))
+            clo = st.tuples(st.sampled_from(['PY', 'HNC', 'PY']), st.booleans()).map(list)
+            return st.fixed_dictionaries({'kT': st.just(kT), 'd2': st.sampled_from([1.0, 1.5, 2.0]), 'x': st.sampled_from([0.5, 0.2, 0.8, 0.01]),
+                                          'rho0': specs.logfloat(-3, -2, 3), 'rho_tiny': specs.logfloat(-12, -7, 3),
+                                          'potential': st.lists(pot, min_size=3, max_size=3), 'closure': st.lists(clo, min_size=3, max_size=3),
+                                          'names': st.sampled_from([['A', 'B'], ['B', 'A'], ['solvent', 'np']])})
+        return specs.logfloat(-0.15, 0.48, 3).flatmap(body)
+
+    def check(self, spec):
+        P = target()
+        out = Outcome()
+        sig = PID + '/dilute-mixture/'
+        dr, L = 0.05, 512
+        names = list(spec['names'])
+        dia = [1.0, spec['d2']]
+        keys = ['0,0', '0,1', '1,1']
+        sigma = {'0,0': 1.0, '0,1': (1.0 + spec['d2']) / 2.0, '1,1': spec['d2']}
+        # the Exponential tail must be resolved by the grid (as in the one-component sub-check)
+        pots = [[d[0], dict(d[1], alpha=max(d[1]['alpha'], 0.5))] if d[0] == 'Exponential' else d for d in spec['potential']]
+        devs = {}
+        for m, rho in enumerate((spec['rho0'], spec['rho0'] / 10, spec['rho_tiny'])):
+            sysspec = {'types': names, 'kT': spec['kT'], 'domain': {'length': L, 'dr': dr}, 'dia': dia, 'rho': [rho * spec['x'], rho * (1 - spec['x'])], 'method': 'krylov',
+                       'omega': {'0,0': ['SingleSite', {}], '0,1': ['NoIntra', {}], '1,1': ['SingleSite', {}]},
+                       'potential': dict(zip(keys, pots)), 'closure': dict(zip(keys, spec['closure']))}
+            pr = S.quiet(S.build_system(sysspec).createPRISM)
+            try:
+                res = S.quiet(pr.solve, method='krylov', options={'disp': False, 'fatol': 1e-11, 'maxiter': 100})
+            except Exception as exc:   # noqa
+                if isinstance(exc, (ArithmeticError, ValueError)) or type(exc).__name__ in ('LinAlgError', 'NoConvergence'):
+                    out.skipped = 'not-converged'
+                    return out
+                raise
+            if not res.success:
+                out.skipped = 'not-converged'
+                return out
+            r = pr.sys.domain.r
+            g = S.quiet(P.calculate.pair_correlation, pr)
+            for kk in keys:
+                i, j = [int(v) for v in kk.split(',')]
+                gref, judged = pair_reference(pots[keys.index(kk)], spec['closure'][keys.index(kk)][0], spec['closure'][keys.index(kk)][1], spec['kT'], r, sigma[kk])
+                for a, b in ((i, j), (j, i)):
+                    gv = np.asarray(g[names[a], names[b]], dtype=float)
+                    devs[(m, kk, a, b)] = (float(np.max(np.abs(gv - gref)[judged])), rho, gv, gref, judged)
+        r = pr.sys.domain.r
+        f = {}
+        for kk in keys:
+            gref, judged = devs[(0, kk, int(kk[0]), int(kk[2]))][3:5]
+            f[kk] = np.where(judged, gref - 1.0, 0.0)
+        f['1,0'] = f['0,1']
+        vol = lambda x: float(4 * math.pi * np.sum(np.abs(x) * r * r) * dr)
+        nontrivial = False
+        for (m, kk, a, b), (dev, rho, gv, gref, judged) in sorted(devs.items()):
+            # first order in density: g_ab = g_ref,ab (1 + sum_c rho_c int f_ac f_cb): |...| <= rho_total max_c max|f_ac| int|f_cb|
+            M = max(float(np.max(np.abs(f['%d,%d' % (min(a, c_), max(a, c_))]))) * vol(f['%d,%d' % (min(c_, b), max(c_, b))]) for c_ in (0, 1))
+            K = M * max(1.0, float(np.max(gref[judged]))) + 1e-3
+            nontrivial = nontrivial or bool(np.any(np.abs(f[kk][r > sigma[kk] + 1e-6]) > 1e-6))
+            if not (dev <= K * rho + 1e-9):
+                i_ = int(np.argmax(np.where(judged, np.abs(gv - gref), 0.0)))
+                out.fail(sig + 'g-not-reference-at-low-density', 'pair %s-%s (%s, %s%s) kT=%.3g rho_total=%.3g x=%.2g: |g - exp(-u/kT)| = %.3g at r=%.4g (g=%r, reference %r) exceeds K*rho = %.3g' % (
+                    names[a], names[b], pots[keys.index(kk)][0], spec['closure'][keys.index(kk)][0], '+flag' if spec['closure'][keys.index(kk)][1] else '', spec['kT'], rho, spec['x'],
+                    dev, r[i_], float(gv[i_]), float(gref[i_]), K * rho), potential=pots)
+                return out
+        out.nontrivial = nontrivial or spec['d2'] != 1.0
+        out.label('d2=%g' % spec['d2'], 'x=%g' % spec['x'], *['pair-potential=' + d[0] for d in pots])
+        return out
+
+
+SUBS = [WertheimThiele(), Dilute(), DiluteMixture()]
